@@ -14,6 +14,10 @@ import FluteModel.MultiRecv
     tick                             more than the session timeout elapses                        -> ok
     cleanup                                                                                       -> ok [-key ...] (sorted)
     drop                                                                                          -> ok [-key ...] (sorted)
+    ladd                             add_listener (the recording listener of `new` is id 0)          -> ok <id>
+    lrm <id>                         remove_listener                                               -> ok
+    llog <id>                        what listener <id> has been told (also after lrm / drop),
+                                     per key in key order: <key>=<+-+...>                          -> ok [k=+-.. ...]
     race <n>                         n sessions expiring while cleanup runs, then drop            -> opens n closes n
 -/
 namespace Flute.Drv.Tsi
@@ -29,6 +33,7 @@ structure DState where
   probes : List (Endpoint × Nat) := defaultProbes
   timeout : Option Nat := none
   mr : Option MState := none
+  dropped : Bool := false
 
 def parseEp (s : String) : Option Endpoint :=
   match s.splitOn "/" with
@@ -105,8 +110,18 @@ def raceLine (n : Nat) : String :=
   let c := (s.events.filter fun e => match e with | .closed _ => true | _ => false).length
   s!"opens {o} closes {c}"
 
+/-- the live receiver (none before `new` and after `drop`) -/
+def DState.live (d : DState) : Option MState := if d.dropped then none else d.mr
+
+/-- per key (sorted by its printed form) the sequence of open/close marks -/
+def canonLog (evs : List Event) : List String :=
+  let keys := sortStrings ((evs.map (fun e => showKey e.key)).eraseDups)
+  keys.map fun k =>
+    k ++ "=" ++ String.ofList ((evs.filter (fun e => showKey e.key = k)).map
+      (fun e => match e with | .opened _ => '+' | .closed _ => '-'))
+
 def unitOp (d : DState) (op : Op Unit) : DState × String :=
-  match d.mr with
+  match d.live with
   | none => (d, "bad-op")
   | some s =>
     match step (actMachine d.timeout) s op with
@@ -130,10 +145,12 @@ def step (d : DState) (args : List String) : DState × String :=
   | "sess" :: _ => (d, "ok")   -- packet stream definition: only meaningful to the implementation side
   | ["new", f, t] =>
     let to? : Option (Option Nat) := if t = "-" then some none else t.toNat?.map some
-    match f, to? with
-    | "0", some to => ({ d with timeout := to, mr := some (State.new false) }, "ok")
-    | "1", some to => ({ d with timeout := to, mr := some (State.new true) }, "ok")
-    | _, _ => (d, "bad-op")
+    -- the harness registers its recording listener first thing: id 0
+    let mk (b : Bool) : MState := (MultiRecv.step (actMachine none) (State.new b) .addListener).1
+    match d.live, f, to? with
+    | none, "0", some to => ({ d with timeout := to, mr := some (mk false), dropped := false }, "ok")
+    | none, "1", some to => ({ d with timeout := to, mr := some (mk true), dropped := false }, "ok")
+    | _, _, _ => (d, "bad-op")
   | ["add", e, t] => match parseEp e, t.toNat? with
     | some e, some t => unitOp d (.addListen e t)
     | _, _ => (d, "bad-op")
@@ -149,7 +166,7 @@ def step (d : DState) (args : List String) : DState × String :=
   | ["filt", "0"] => unitOp d (.setFiltering false)
   | ["filt", "1"] => unitOp d (.setFiltering true)
   | "push" :: e :: t :: kind :: _ =>
-    match d.mr, parseEp e, t.toNat? with
+    match d.live, parseEp e, t.toNat? with
     | some s, some ep, some tsi =>
       let pkt? : Option (Option (Pkt Unit)) :=
         if kind = "d" then some (some ⟨tsi, false, ()⟩)
@@ -164,21 +181,39 @@ def step (d : DState) (args : List String) : DState × String :=
     | _, _, _ => (d, "bad-op")
   | ["tick"] =>
     -- one tick of the harness = strictly more than the session timeout
-    match d.mr with
+    match d.live with
     | some _ => unitOp d (.tick ((d.timeout.getD 0) + 1))
     | none => (d, "bad-op")
   | ["cleanup"] =>
-    match d.mr with
+    match d.live with
     | some s =>
       let s' := cleanup (actMachine d.timeout) s 0
       ({ d with mr := some s' }, withEvents "ok" (sortStrings ((newEvents s s').map showEvent)))
     | none => (d, "bad-op")
   | ["drop"] =>
-    match d.mr with
+    match d.live with
     | some s =>
       let s' := drop s
-      ({ d with mr := none }, withEvents "ok" (sortStrings ((newEvents s s').map showEvent)))
+      ({ d with mr := some s', dropped := true }, withEvents "ok" (sortStrings ((newEvents s s').map showEvent)))
     | none => (d, "bad-op")
+  | ["ladd"] =>
+    match d.live with
+    | some s => ({ d with mr := some (MultiRecv.step (actMachine d.timeout) s .addListener).1 }, s!"ok {s.listenersId}")
+    | none => (d, "bad-op")
+  | ["lrm", i] =>
+    match d.live, i.toNat? with
+    | some _, some i => unitOp d (.removeListener i)
+    | _, _ => (d, "bad-op")
+  | ["llog", i] =>
+    match d.mr, i.toNat? with
+    | some s, some i =>
+      match AL.get s.listeners i with
+      | some l => (d, withEvents "ok" (canonLog l))
+      | none =>
+        match (s.retired.filter (fun e => e.1 = i)).getLast? with
+        | some e => (d, withEvents "ok" (canonLog e.2))
+        | none => (d, "bad-op")
+    | _, _ => (d, "bad-op")
   | ["race", n] =>
     match n.toNat? with
     | some n => (d, raceLine n)
